@@ -30,9 +30,18 @@ def main(tier, seed, replay):
         wid += 1
         wrng = random.Random(rng.getrandbits(48))
         rnd = wrng.random() < 0.3
-        w = wg.gen_world(wrng, {'nfeatures': (1, 4), 'random_models': rnd, 'p_grains': 0.8 if rnd else 0.4})
+        # random-model worlds: random grains models and (continental plates) the random composition model, the only random model the
+        # C++ wrapper can reach; mostly continental plates there so that the seed matters for what every interface returns
+        wg.EXTRA['random_composition'] = 0.8 if rnd else 0.0
+        try:
+            o = {'nfeatures': (1, 4), 'random_models': rnd, 'p_grains': 0.8 if rnd else 0.4}
+            if rnd and wrng.random() < 0.7:
+                o.update({'types': ['continental plate'], 'p_composition': 1.0, 'nfeatures': (1, 2)})
+            w = wg.gen_world(wrng, o)
+        finally:
+            wg.EXTRA['random_composition'] = 0.0
         fn = 'g%d.wb' % wid
-        jobs.append(build(wrng, wid, core.workfile(PID, fn), {fn: wg.dumps(w['json'])}, w['truth']['ctx'], wg.sample_points(wrng, w, 12), w['truth']['cross'], w['truth']['ncomp'], rnd))
+        jobs.append(build(wrng, wid, core.workfile(PID, fn), {fn: wg.dumps(w['json'])}, w['truth']['ctx'], wg.sample_points(wrng, w, 12, p_inside=0.8), w['truth']['cross'], w['truth']['ncomp'], rnd))
     core.run_cases('asan', [j[0] for j in jobs], PID)
     for (c, plan, meta) in jobs:
         check(V, c, plan, meta)
